@@ -19,7 +19,7 @@ MAC_CLASSES = ["valid", "zero", "random", "absent", "short", "long", "wrong-key"
 SYS = (1, 3, 6, 1, 2, 1, 1, 5, 0)
 
 
-def forge(cfg, req, mac, flag_auth, flag_priv, body, seed, walk=False):
+def forge(cfg, req, mac, flag_auth, flag_priv, body, seed, walk=False, form="consistent"):
     """Build the forged reply."""
     if body == "GetResponse":
         oid = req.oids[0] if req.oids else SYS
@@ -32,7 +32,8 @@ def forge(cfg, req, mac, flag_auth, flag_priv, body, seed, walk=False):
     flags = (1 if flag_auth else 0) | (2 if flag_priv else 0)
     data = scoped
     priv_params = b""
-    if flag_priv:
+    encrypt = flag_priv if form == "consistent" else (not flag_priv)
+    if encrypt and cfg.priv:
         salt = b"\x00\x00\x00\x02frg!"
         data = rb.enc_octets(refcrypto.usm_encrypt(cfg.priv, cfg.priv_kul(), req.boots, req.time, salt, scoped))
         priv_params = salt
@@ -67,9 +68,16 @@ def forge(cfg, req, mac, flag_auth, flag_priv, body, seed, walk=False):
     return msg[:off] + m + msg[off + 12 :]
 
 
-def must_deliver(cfg, mac, flag_auth, flag_priv, body):
+def must_deliver(cfg, mac, flag_auth, flag_priv, body, form="consistent"):
     """True: must be delivered; False: must be dropped; None: either (Reports may be accepted unauthenticated)."""
     authentic = flag_auth and mac == "valid"
+    if form != "consistent":
+        # msgFlags and msgData disagree: a response whose body is in clear must be dropped when privacy is
+        # configured, whatever the flags claim; ciphertext under a cleared priv flag may go either way
+        in_clear = bool(flag_priv)
+        if body == "GetResponse" and (in_clear or not authentic):
+            return False
+        return None
     if body == "Report":
         if authentic and (flag_priv or not cfg.priv):
             return True
@@ -104,7 +112,7 @@ def run_case(case, worlds):
     if o.kind != "ok":
         raise drivers.MachineryError("send failed %r" % (o.brief(),))
     req = drivers.open_request(cfg, w.take_request())
-    forged = forge(cfg, req, case["mac"], case["flag_auth"], case["flag_priv"], case["body"], case.get("seed", 1), walk=op in ("getnext", "getbulk"))
+    forged = forge(cfg, req, case["mac"], case["flag_auth"], case["flag_priv"], case["body"], case.get("seed", 1), walk=op in ("getnext", "getbulk"), form=case.get("form", "consistent"))
     w.inject(forged)
     out1 = w.recv(op, it)
     # the genuine reply afterwards
@@ -148,9 +156,9 @@ def work(chunk):
         res.distinct()
         c1, c2 = classify_out(out1, case["op"]), classify_out(out2, case["op"])
         res.outcome(c1)
-        want = must_deliver(cfg, case["mac"], case["flag_auth"], case["flag_priv"], case["body"])
+        want = must_deliver(cfg, case["mac"], case["flag_auth"], case["flag_priv"], case["body"], case.get("form", "consistent"))
         macc = case["mac"] if not case["mac"].startswith("bit") else "bitflip"
-        sig_tail = "%s/%s-%s/mac=%s/auth=%d/priv=%d/%s" % (
+        sig_tail = ("flags-body-mismatch/" if case.get("form", "consistent") != "consistent" else "") + "%s/%s-%s/mac=%s/auth=%d/priv=%d/%s" % (
             case["op"],
             drivers.AUTH_NAMES[cfg.auth],
             drivers.PRIV_NAMES[cfg.priv],
@@ -198,6 +206,8 @@ def gen_cases(tier):
                         if mac.startswith("bit") and not thorough and (op != "get" or body != "GetResponse") and int(mac[3:]) % 13:
                             continue
                         yield {"cfg": cfg.describe(), "op": op, "body": body, "flag_auth": flag_auth, "flag_priv": flag_priv, "mac": mac}
+                        if priv and mac in ("valid", "zero", "absent") :
+                            yield {"cfg": cfg.describe(), "op": op, "body": body, "flag_auth": flag_auth, "flag_priv": flag_priv, "mac": mac, "form": "mismatch"}
     # noAuth sessions: nothing to verify, plain replies are delivered
     cfg = Cfg("v3")
     for op in ("get", "refresh"):
@@ -223,6 +233,7 @@ def run(tier):
     )
     rec.assume(
         "a GetResponse must be delivered iff flagged auth with a valid MAC and (when privacy is configured) encrypted; Reports may be accepted unauthenticated (either outcome passes)",
+        "msgFlags / msgData mismatches: a response whose body is in clear must be dropped when privacy is configured whatever the priv flag says; ciphertext under a cleared priv flag may be delivered or dropped",
         "timeliness (RFC 3414 time window) is outside the property",
     )
     cases = [c for c in gen_cases(tier) if not c.get("noauth")]
